@@ -326,7 +326,11 @@ class Visitor:
             property_setter_or_deleter = (
                 prop_function in {"setter", "deleter"}
                 and path == function.path
-                and self.current.get_member(function.name).has_labels("property")
+                # The name can be unbound at this point, or bound to an import (an alias, whose labels are those
+                # of a target that is not loaded yet): only an actual property has setters and deleters.
+                and (member := self.current.members.get(function.name)) is not None
+                and not member.is_alias
+                and member.has_labels("property")
             )
             if property_setter_or_deleter:
                 return prop_function
